@@ -658,7 +658,7 @@ def struct_like(by_pat):
     return res
 
 
-def inlined_body(fn, by_pat, depth=2, _stack=(), keep=()):
+def inlined_body(fn, by_pat, depth=2, _stack=(), keep=(), mark=None):
     import copy
 
     def subst(node, m):
@@ -682,7 +682,10 @@ def inlined_body(fn, by_pat, depth=2, _stack=(), keep=()):
                     and cal["pat"] not in _stack and len(cal.get("params", [])) == len(c.get("args", [])) and (c.get("obj") is None or strip(c["obj"]).get("k") == "This"):
                 m = {p["d"]: a for p, a in zip(cal["params"], c["args"])}
                 body = subst(cal["body"], m)
-                inner = inlined_body({"body": body, "rect": cal.get("rect"), "pat": cal["pat"]}, by_pat, d - 1, _stack + (fn.get("pat"), cal["pat"]), keep)
+                inner = inlined_body({"body": body, "rect": cal.get("rect"), "pat": cal["pat"]}, by_pat, d - 1, _stack + (fn.get("pat"), cal["pat"]), keep, mark)
+                if mark is not None and mark(cal.get("name") or ""):
+                    # the call itself stays visible (it is what some rule looks for) and its body follows it
+                    return {"k": "Block", "s": [s, {"k": "Block", "s": stmts_of(inner), "loc": s.get("loc"), "inlined_body_of": cal.get("name")}], "loc": s.get("loc"), "marked": cal.get("name")}
                 return {"k": "Block", "s": stmts_of(inner), "loc": s.get("loc"), "inlined": cal.get("name")}
         if s.get("k") == "Block":
             out = []
